@@ -12,11 +12,13 @@
 (*   literal       keys that are literal constants (except keccak(n))      *)
 (*   value_consts  the same closure for constants in stored VALUES only    *)
 (*   storage_ops   executed offsets whose code byte is SLOAD / SSTORE      *)
+(*   exec_literal  literal keys of the SLOAD / SSTORE instructions the VM   *)
+(*                 executed, as reported by the StorageAccess hook          *)
 (***************************************************************************)
 EXTENDS Layout
 
 Attributable(keys) == ToSet(keys.consts) \cup ToSet(keys.derived)
-Required(keys)     == ToSet(keys.literal)
+Required(keys)     == ToSet(keys.literal) \cup ToSet(keys.exec_literal)
 
 (* C05: no phantom slots; in particular no access at all means an empty layout *)
 NoPhantom(entries, keys) == /\ Slots(entries) \subseteq Attributable(keys)
